@@ -33,6 +33,16 @@ inductive Role
   | unknown
   deriving DecidableEq, Repr, Inhabited
 
+/-- the three-way classification over which `Props/C12.statics_constant_or_accepted` is stated -/
+inductive Cls
+  /-- immutable AND its initialiser is fixed before any `embed` call can run (a literal / load-time expression) -/
+  | constant
+  /-- a documented process-wide setting: the logger singleton, the `TAPKEE_VERIF` hooks, the seedable generators -/
+  | config
+  /-- everything else: a cache, a counter, a value frozen by the first call (`static const T x = f(argument)`), … -/
+  | state
+  deriving DecidableEq, Repr, Inhabited
+
 structure Obj where
   name : String
   file : String
@@ -40,6 +50,17 @@ structure Obj where
   /-- enclosing function (`""` at namespace / class scope) -/
   scope : String
   decl : String
+  /-- declared type as written (tokens between the storage-class keyword and the name) -/
+  type : String := ""
+  /-- declared `const` / `constexpr` (top level) -/
+  isConst : Bool := false
+  /-- function-local static whose initialiser names anything but literals (a parameter, a local, a call): it is
+      evaluated by the FIRST call that reaches the declaration and frozen for the rest of the process -/
+  rtInit : Bool := false
+  /-- function-local static that its function hands out (`return x;` / `return &x;`): a singleton -/
+  returned : Bool := false
+  /-- a declared object (false for the rows that record a *use* of the C library's generator state) -/
+  isObject : Bool := true
   isMutable : Bool
   role : Role
   /-- named (directly or through its accessor function) in code that a deterministic method's `embed()`
@@ -54,5 +75,16 @@ def accounted (o : Obj) : Bool :=
     (!(o.isMutable && o.onDeterministicPath) ||
       (o.role == .initOnly || o.role == .loggingOnly || o.role == .vantageChoice ||
        o.role == .verifHook || o.role == .readOnlyLiteral))
+
+/-- constant = immutable with an initialiser that no call can influence; config = the roles the translator establishes
+    for the documented process-wide settings; state = anything else -/
+def cls (o : Obj) : Cls :=
+  if !o.isMutable && o.isConst && !o.rtInit then .constant
+  else if o.role == .loggingOnly || o.role == .verifHook || (o.role == .randomStream && o.isObject) then .config
+  else .state
+
+/-- identity of an object for the hand-kept accepted list: (file, enclosing function, name) — not the line, so that
+    moving code around inside a file is not an alarm -/
+def key (o : Obj) : String × String × String := (o.file, o.scope, o.name)
 
 end TapkeeVerif.Statics
